@@ -9,6 +9,7 @@ Two workloads:
     recorded (probe on the instance) and the outer return must be the stated combination of the recorded
     inner outputs; histories of 1-3 calls.
 """
+import math
 import numpy as np
 
 from .. import geo, gen_geo, sampling, probes
@@ -41,7 +42,78 @@ def gen_cases(seed, tier):
     m = 300 if tier == "quick" else 10000
     for i in range(m):
         cases.append(gen_algebra(rng, tier))
+    # compositions with an operand whose row count changes from call to call (random sampler with density and filter)
+    rng2 = np.random.default_rng([seed, 203])
+    for i in range(30 if tier == "quick" else 1000):
+        cases.append({"wk": "varying", "op": ["sum", "prod", "append_static", "sum_static"][i % 4], "seed": int(rng2.integers(0, 2 ** 31)),
+                      "want": float(rng2.choice([25, 60, 140])), "thr": float(rng2.uniform(-0.3, 0.3)), "nb": int(rng2.choice([1, 3, 7])),
+                      "ncalls": int(rng2.integers(3, 6)), "interval": int(rng2.choice([1, 2]))})
     return cases
+
+
+def run_varying(case):
+    """len(sampler) of a composition follows the most recent sample when an operand's row count changes between calls"""
+    import torch
+    import torchphysics as tp
+    res = {"cls": "varying|%s|nb%d|i%d" % (case["op"], case["nb"], case["interval"]), "judged": 0, "nontrivial": False, "viol": [], "counters": {}}
+    torch.manual_seed(case["seed"])
+    X, T = tp.spaces.R2("x"), tp.spaces.R1("t")
+    C = tp.domains.Circle(X, [0.0, 0.0], 1.0)
+    thr = case["thr"]
+    a = tp.samplers.RandomUniformSampler(C, density=case["want"] / math.pi, filter_fn=lambda x: x[:, :1] > thr)
+    op = case["op"]
+    mech = {"wk": "varying", "comp": op}
+    inner = []
+    if op.endswith("_static"):
+        a = a.make_static(resample_interval=case["interval"])
+    orig = a.sample_points
+
+    def rec(*args, **kw):
+        out = orig(*args, **kw)
+        inner.append(len(out))
+        return out
+    a.sample_points = rec
+    if op in ("sum", "sum_static"):
+        b = tp.samplers.RandomUniformSampler(tp.domains.Parallelogram(X, [2, 0], [3, 0], [2, 1]), n_points=case["nb"])
+        s = a + b
+        rows = lambda na: na + case["nb"]
+    elif op == "prod":
+        b = tp.samplers.GridSampler(tp.domains.Interval(T, 0.0, 1.0), n_points=case["nb"])
+        s = a * b
+        rows = lambda na: na          # the first factor is sampled with the partner points as parameters: its return is the product
+    else:
+        s = a + tp.samplers.RandomUniformSampler(C, n_points=case["nb"])
+        rows = lambda na: na + case["nb"]
+    counts = set()
+    for i in range(case["ncalls"]):
+        n0 = len(inner)
+        try:
+            out = s.sample_points()
+        except Exception as e:
+            res["viol"].append(viol("exception", "call %d of the composition raised %r" % (i, e), exc=type(e).__name__, site=exc_site(e), **mech))
+            return res
+        if len(inner) != n0 + 1:
+            res["viol"].append(viol("inner_not_called", "call %d: the varying operand was sampled %d times" % (i, len(inner) - n0), **mech))
+            return res
+        na = inner[-1]
+        counts.add(na)
+        res["judged"] += 2
+        if len(out) != rows(na):
+            res["viol"].append(viol("count", "call %d: composition returned %d rows, its varying operand %d rows and the other %d"
+                                    % (i, len(out), na, case["nb"]), **mech))
+        try:
+            ln = len(s)
+        except Exception as e:
+            res["viol"].append(viol("exception", "len(sampler) raised %r" % e, exc=type(e).__name__, site="__len__", **mech))
+            return res
+        if ln != len(out):
+            res["viol"].append(viol("len", "call %d: len(sampler)=%d but the call just made returned %d rows (varying operand: %s rows so far)"
+                                    % (i, ln, len(out), inner), **mech))
+            break
+    res["counters"]["varying_calls"] = case["ncalls"]
+    res["counters"]["distinct_operand_counts"] = len(counts)
+    res["nontrivial"] = len(counts) > 1
+    return res
 
 
 # ---------------------------------------------------------------------------------------------
@@ -457,6 +529,8 @@ def run_basic(case):
 def run_case(case):
     if case["wk"] == "basic":
         return run_basic(case)
+    if case["wk"] == "varying":
+        return run_varying(case)
     return run_algebra(case)
 
 
@@ -468,6 +542,8 @@ def extra_coverage(results):
 
 
 def sample_of(case, r):
+    if case.get("wk") == "varying":
+        return {"varying_composition": case.get("op"), "class": r.get("cls"), "status": r.get("status")}
     if case.get("wk") == "algebra":
         return {"composition": case.get("sspec"), "rows": case.get("rows"), "ncalls": case.get("ncalls"), "class": r.get("cls"),
                 "status": r.get("status")}
